@@ -54,7 +54,10 @@ def run(case, maxphys):
             l2 = DataLoader(ds, batch_sampler=FixedBatches(case['batches']), collate_fn=l.collate_fn)
 
             def loop(loader):
+                released = 0
                 for xb, yb in loader:
+                    if case.get('stop_after') is not None and released >= case['stop_after']:
+                        break       # the training loop leaves the epoch early, at a logical-step boundary
                     sizes.append(len(xb))
                     phys.append(xb[:, 0].tolist())
                     o.zero_grad()
@@ -62,6 +65,7 @@ def run(case, maxphys):
                     loss.backward()
                     o.step()
                     if not o._is_last_step_skipped:
+                        released += 1
                         traj.append(torch.cat([p.detach().flatten().clone() for p in model.parameters()]))
             if maxphys is None:
                 loop(l2)
@@ -107,6 +111,11 @@ def equiv_case(case):
 class RecOpt:
     def __init__(self):
         self.ev = []
+        self._step_skip_queue = []
+        self._is_last_step_skipped = False
+
+    def zero_grad(self, set_to_none=False):
+        pass
 
     def signal_skip_step(self, do_skip=True):
         self.ev.append(['S', bool(do_skip)])
